@@ -18,6 +18,11 @@
 (*   Involution complement is an involution without fixed points on every   *)
 (*             reachable term, stays in normal form, flips the nullable    *)
 (*             flag (C07's complement clause, in the design)               *)
+(*   StartOk   the case analysis of start_char (a concatenation needs a     *)
+(*             non-empty tail, intersections and complements go through    *)
+(*             the derivative) agrees with "some member begins with c"     *)
+(*             (C18, in the design; defect F8 is a counterexample to the   *)
+(*             pre-repair rule)                                            *)
 (*   finite    TLC terminates: the derivative closure of every term is     *)
 (*             finite under these normal forms (the design argument behind *)
 (*             "iter_derivatives terminates", C19) - without any help from *)
@@ -41,5 +46,8 @@ Involution == MkNot(MkNot(t)) = t /\ MkNot(t) # t /\ WfN(MkNot(t)) /\ NulN(MkNot
 \* derivative: the class computation is consistent with the derivative rules (C03's uniformity, in the design)
 ClsOf(P, x) == {p \in P : p[1] <= x /\ x <= p[2]}
 ClassUniform == \A x, y \in Sigma : ClsOf(ClassesN(t), x) = ClsOf(ClassesN(t), y) => DerivN(t, x) = DerivN(t, y)
+\* the case analysis of start_char agrees with the semantics: some member of the language of t begins with c
+\* (the language of t is the residual language of the construction at state s)
+StartOk == \A c \in Sigma : StartN(t, c) = NonEmptyFrom(TermAt(r), TermReps(TermAt(r)), RStep(TermAt(r), s, c))
 Seeds  == TLCGet("stats").distinct >= NT
 =============================================================================
